@@ -37,6 +37,9 @@ func (r *ComDoc) readShortSAT() error {
 	}
 	sat := make([]SecID, count*int(r.Header.SSATSectorCount))
 	position := 0
+	if err := checkChainStart(r.SAT, r.Header.SSATNextSector); err != nil {
+		return err
+	}
 	for sector := r.Header.SSATNextSector; sector >= 0; sector = r.SAT[sector] {
 		if position >= len(sat) {
 			return errors.New("ssat has more sectors than indicated")
@@ -45,6 +48,9 @@ func (r *ComDoc) readShortSAT() error {
 			return err
 		}
 		position += count
+	}
+	if err := checkLinks(sat); err != nil {
+		return err
 	}
 	r.SSAT = sat
 	return nil
@@ -93,6 +99,9 @@ func (r *ComDoc) readShortSector(shortSector SecID, buf []byte) (int, error) {
 	bigSectorIndex := int(shortSector) * r.ShortSectorSize / r.SectorSize
 	bigSectorID := r.Files[r.rootStorage].NextSector
 	for i := 0; i < bigSectorIndex; i++ {
+		if bigSectorID < 0 {
+			return 0, errors.New("short sector lies beyond the end of the short-sector stream")
+		}
 		bigSectorID = r.SAT[bigSectorID]
 	}
 	// translate to a file position
